@@ -4,6 +4,5 @@ CONSTANTS
   VNodes = 2
   Positions = {1, 2, 3, 4, 5, 6, 7}
   AsBuilt = {}
-INVARIANTS RingIsMembers SizeDyn CoverageSettled NobodyElse
-PROPERTIES OnlyGainOrLose
+INVARIANTS RingIsMembers SizeDyn CoverageSettled NobodyElse OnlyGainOrLose
 CHECK_DEADLOCK FALSE
